@@ -2,13 +2,18 @@
 From Coq Require Import Strings.String Strings.Ascii.
 From BP7 Require Import Base.Prelude Gen.Consts Gen.Tbl_BLOCKFLAGS Gen.Tbl_BUNDLEFLAGS Gen.Tbl_RULESPACE Proofs.TieBase Model.Types Model.Validate Model.Hex.
 
-(* BLOCKFLAGS: row w = validate(w).is_ok() *)
-Definition block_flags_ok (w : N) : bool := negb (block_flag w BLOCK_CFRESERVED_FIELDS).
+(* the otherwise valid bundle of harness/src/tables.rs: named endpoints, creation time 1000, one payload block "x" *)
+Definition base_primary (flags : N) : primary :=
+  mkprimary 7 flags CrcNo (Dtn 1 [x2f; x2f; x64; x2f]) (Dtn 1 [x2f; x2f; x73; x2f]) eid_none 1000 0 3600000 0 0.
+Definition flags_bundle (bundle_flags block_flags : N) : bundle :=
+  mkbundle (base_primary bundle_flags) [mkcanonical 1 1 block_flags CrcNo (Data [x78])].
+(* BLOCKFLAGS: row w = Bundle::validate of that bundle with block control flags w on the payload block *)
+Definition block_flags_ok (w : N) : bool := is_valid (flags_bundle 0 w).
 Definition bf_row (w : N) (r : list byte) : bool := (N.land w 240 =? 240) || bytes_eqb r [ch (block_flags_ok w)].
-(* BUNDLEFLAGS: row i = validate(word i).is_ok(), word i = the bits of T_BUNDLE_BITS selected by i *)
+(* BUNDLEFLAGS: row i = Bundle::validate of that bundle with bundle control flags word i = the bits of T_BUNDLE_BITS selected by i *)
 Fixpoint word_of (bits : list N) (i : N) : N :=
   match bits with [] => 0 | b :: t => (if N.odd i then b else 0) + word_of t (N.div2 i) end.
-Definition bundle_flags_ok (w : N) : bool := match bundle_flags_validate w with [] => true | _ => false end.
+Definition bundle_flags_ok (w : N) : bool := is_valid (flags_bundle w 0).
 Definition uf_row (i : N) (r : list byte) : bool :=
   let w := word_of T_BUNDLE_BITS i in (N.land w 57880 =? 57880) || bytes_eqb r [ch (bundle_flags_ok w)].
 Definition rs_block (o : N) : canonical :=
